@@ -30,6 +30,7 @@ type Config struct {
 	RaceCheck       bool
 	StopOnViolation bool
 	NoStateHash     bool
+	NoStubs         bool
 }
 
 type Engine struct {
@@ -170,6 +171,7 @@ type EntrySpec struct {
 	RaceCheck   bool     `json:"race_check"`
 	NoNative    bool     `json:"no_native"`
 	NoStateHash bool     `json:"no_state_hash"`
+	NoStubs     bool     `json:"no_stubs"`
 	MaxDecisions int     `json:"max_decisions"`
 }
 
